@@ -125,6 +125,28 @@ CHECKS.update({
         technique='Lean parser/build model + differential correspondence + violation-injection oracle',
         design='6/C06'),
 })
+CHECKS.update({
+    'C07': dict(
+        level='translation_validation',
+        text='Faults of kinds no valid spelling contains (unbalanced structural bracket, column without type, unknown setting / '
+             'index type / operator / action, malformed colour, trailing garbage, unterminated last string) are injected into '
+             'valid spelled documents at every/random positions: the real parser must never return a database. The Lean '
+             'character-level parser model must return the same verdict class on every faulty text and on random token/character '
+             'mutants and token soups. Theorem: the model accepts only when StringEnd succeeds on the remaining input '
+             '(accepts_only_whole_input); prefix/balance invariants are staged.',
+        note='trusted: hand-written model tied by sampling; rejection at every position is explored, not proved',
+        technique='Lean parser model + verdict correspondence + fault-injection oracle (+ whole-input theorem)',
+        design='6/C07'),
+    'C08': dict(
+        level='translation_validation',
+        text='Any text: the class of an escaping exception must be a parse error, a pydbml exception or SyntaxError, and every '
+             'rendering (database and each element, sql and dbml) of an accepted database must not raise a foreign exception. '
+             'Inputs: 50 edge documents, wild renderings, mutants, soups, spliced fragments, random Unicode. The Lean model makes '
+             'the partial Python operations explicit and must predict the same outcome class for parse, db.sql and db.dbml.',
+        note='ParseResults access sites inside parse actions are outside the model (pyparsing naming semantics): carried by exploration',
+        technique='Lean parser/renderer model with explicit partial operations + outcome-class correspondence + exploration',
+        design='6/C08'),
+})
 UNDER_CONSTRUCTION = 'check under construction (model and harness being built; see DESIGN.md)'
 
 
